@@ -198,6 +198,7 @@ def disabled_sessions(ctx: Ctx):
     from .. import xfailfam
     xfailfam.check(ctx, "C06")
     xfailfam.check_disabled(ctx, "C06")
+    xfailfam.check_stacks(ctx, "C06", 16 if not ctx.thorough else 200)
     # constructor calls (dataclass / namedtuple / attrs, positional and keyword arguments) without flags: transparent, and Model/CallAssign.v
     from .. import callassign as ca
     ca.check_part(ctx, 200 if not ctx.thorough else 2500, "C06", positional=False, noflags=True)
@@ -328,7 +329,7 @@ def run(ctx: Ctx):
 
 def replay(ctx: Ctx, data):
     case = data["case"]
-    if case.get("kind") in ("xfail", "xfail-disabled"):
+    if case.get("kind") in ("xfail", "xfail-disabled", "xfail-stack"):
         from .. import xfailfam
         return xfailfam.replay(case, "C06")
     if case.get("kind") == "call":
